@@ -154,3 +154,11 @@ Definition save_restore {A : Type} (offmul stride n : nat) (l : list A) : list A
 (* ---- mjCModel::CopyList (mj_copySpec): every element of the source list is copied, its references are resolved in the
    new model, and an element whose resolution throws is silently skipped *)
 Definition copy_list {A : Type} (resolves : A -> bool) (l : list A) : list A := filter resolves l.
+
+(* ---- mjCFrame::Compile on positions only (translations compose by addition): a frame stores (compiled flag, pos);
+   the first compile sets pos := parent_accumulated + local and the flag; a later compile must leave it alone.
+   [reset_first] = the variant that copies the local spec value back BEFORE testing the flag. *)
+Definition frame_compile (reset_first : bool) (parent local : Z) (st : bool * Z) : bool * Z :=
+  let '(compiled, pos) := st in
+  let pos1 := if reset_first then local else pos in
+  if compiled then (true, pos1) else (true, (parent + local)%Z).
